@@ -136,7 +136,9 @@ class ProvXMLSerializer(Serializer):
                     elem, _ns(attr.namespace.uri, attr.localpart)
                 )
                 if isinstance(value, prov.model.Literal):
-                    if value.datatype not in [None, PROV["InternationalizedString"]]:
+                    # a language tag implies prov:InternationalizedString; without
+                    # one, that datatype has to be written like any other
+                    if value.datatype is not None and value.langtag is None:
                         subelem.attrib[_ns_xsi("type")] = str(value.datatype)
                     if value.langtag is not None:
                         subelem.attrib[_ns_xml("lang")] = value.langtag
